@@ -265,7 +265,30 @@ pub fn gen(rng: &mut Rng, _index: u64) -> String {
             let k = grid_size(rng);
             format!("C05.area {}", proto::geom(&gen_any_geom(rng, k, 3)))
         }
-        10..=15 => {
+        10 => {
+            // `triangle_winding_order` (winding_order.rs): grid triangles, exactly collinear triples (in every
+            // direction, so that the rounded cross product can come out as -0.0) and near-collinear float triples
+            let k = grid_size(rng);
+            let (a, b, c) = match rng.below(4) {
+                0 => (grid_coord(rng, k), grid_coord(rng, k), grid_coord(rng, k)),
+                1 => {
+                    let a = grid_coord(rng, k);
+                    let (dx, dy) = (rng.range(-3, 3) as f64, rng.range(-3, 3) as f64);
+                    let (s, t) = (rng.range(-4, 4) as f64, rng.range(-4, 4) as f64);
+                    (a, Coord { x: a.x + s * dx, y: a.y + s * dy }, Coord { x: a.x + t * dx, y: a.y + t * dy })
+                }
+                _ => {
+                    let a = wild_coord(rng);
+                    let b = wild_coord(rng);
+                    let t = rng.unit() * 3.0 - 1.0;
+                    let mut c = Coord { x: a.x + t * (b.x - a.x), y: a.y + t * (b.y - a.y) };
+                    if rng.chance(1, 2) { c.y = f64::from_bits(c.y.to_bits() ^ (rng.below(4))); }
+                    (a, b, c)
+                }
+            };
+            format!("C05.triwo {} {} {}", proto::coord(a), proto::coord(b), proto::coord(c))
+        }
+        11..=15 => {
             let k = grid_size(rng);
             let mut r = int_ring(rng, k, true);
             if rng.chance(1, 2) {
@@ -334,6 +357,15 @@ pub fn eval(op: &str, t: &mut Toks) -> R<String> {
         "C05.area" => eval_area(t),
         "C05.wind" => eval_wind(t),
         "C05.orient" => eval_orient(t),
+        "C05.triwo" => {
+            let tri = Triangle(t.coord()?, t.coord()?, t.coord()?);
+            Ok(match geo::algorithm::winding_order::triangle_winding_order(&tri) {
+                None => "none",
+                Some(WindingOrder::Clockwise) => "Clockwise",
+                Some(WindingOrder::CounterClockwise) => "CounterClockwise",
+            }
+            .to_string())
+        }
         _ => Err(format!("unknown op {}", op)),
     }
 }
